@@ -926,7 +926,126 @@ class Interp:
                 return RangeV(ZERO, a.shape[0], ONE), None, [(s.target, a)]
         return None
 
+    def _check_block_cover(self, arr, idx, node):
+        """a block slice [lo(k):hi(k)] stands for the whole axis only if the blocks start at 0 and end at the axis length"""
+        if not any(getattr(it, "block", None) for it in idx if isinstance(it, SliceV)) or arr.shape is None:
+            return
+        try:
+            items = self.np._expand_index(self, arr, idx, node)
+        except Exception:
+            return
+        axis = 0
+        for it in items:
+            if it is None:
+                continue
+            ctx = getattr(it, "block", None) if isinstance(it, SliceV) else None
+            if ctx is not None and axis < len(arr.shape):
+                dim = arr.shape[axis]
+                first = self.refold(ctx["lo"].subs({ctx["ivar"]: ZERO}))
+                last = self.refold(ctx["hi"].subs({ctx["ivar"]: ctx["count"] - ONE}))
+                if not (first.is_zero() and last.eq(dim)):
+                    key = (repr(first), repr(last), repr(dim))
+                    if key not in ctx["reported"]:
+                        ctx["reported"].add(key)
+                        self.event("partition-gap", node, "the blocks [%r, %r) over k = 0 .. %r - 1 cover [%r, %r) of an axis of length %r" % (ctx["lo"], ctx["hi"], ctx["count"], first, last, dim))
+            axis += it.ndim if isinstance(it, Arr) and it.dtype == "bool" else 1
+
+    def _block_loop(self, s, env):
+        """`for k in range(B): lo = f(k); hi = f(k + 1); ... x[lo:hi] ...`: the same statements applied block by block to
+        disjoint, contiguous shares of an axis.  When every store into an array from outside the loop goes through [lo:hi],
+        the loop does to the whole axis what its body does to one block, so the body is followed once with [lo:hi] standing
+        for the whole axis (that the shares start at 0 and end at the axis length is checked where they are used)."""
+        if not isinstance(s.target, ast.Name) or s.orelse:
+            return False
+        try:
+            rng = self.eval(s.iter, env)
+        except AnalysisError:
+            return False
+        if not isinstance(rng, RangeV) or not rng.start.is_zero() or not rng.step.eq(ONE):
+            return False
+        dep = {s.target.id}
+        cands = []
+        for st in s.body:
+            if isinstance(st, ast.Assign) and len(st.targets) == 1 and isinstance(st.targets[0], ast.Name) and any(isinstance(n, ast.Name) and n.id in dep for n in ast.walk(st.value)):
+                cands.append(st)  # computed from the block index (directly, or from an earlier such name: hi = lo + blk)
+                dep.add(st.targets[0].id)
+        if len(cands) < 2:
+            return False
+        assigned = set()  # names bound inside the body (not arrays that are merely stored into)
+        for st in s.body:
+            for n in ast.walk(st):
+                tg = n.targets if isinstance(n, ast.Assign) else [n.target] if isinstance(n, (ast.AugAssign, ast.AnnAssign, ast.For)) else []
+                for t in tg:
+                    for x in ast.walk(t):
+                        if isinstance(x, ast.Name) and isinstance(x.ctx, ast.Store):
+                            assigned.add(x.id)
+        # every store into an outside array must go through a slice written with the two names
+        def slice_names(sub):
+            out = []
+            items = sub.slice.elts if isinstance(sub.slice, ast.Tuple) else [sub.slice]
+            for it in items:
+                if isinstance(it, ast.Slice) and isinstance(it.lower, ast.Name) and isinstance(it.upper, ast.Name) and it.step is None:
+                    out.append((it.lower.id, it.upper.id))
+            return out
+        pairs = set()
+        for st in s.body:
+            for n in ast.walk(st):
+                if isinstance(n, (ast.Assign, ast.AugAssign)):
+                    for t in (n.targets if isinstance(n, ast.Assign) else [n.target]):
+                        if isinstance(t, ast.Subscript) and isinstance(t.value, ast.Name) and t.value.id not in assigned:
+                            sn = slice_names(t)
+                            if not sn:
+                                return False
+                            pairs.update(sn)
+                        elif isinstance(t, ast.Name) and isinstance(n, ast.AugAssign) and t.id not in assigned:
+                            return False
+        if len(pairs) != 1:
+            return False
+        lo_name, hi_name = next(iter(pairs))
+        by_name = {st.targets[0].id: st for st in cands}
+        if lo_name not in by_name or hi_name not in by_name:
+            return False
+        self._loop_ids += 1
+        ivar = alg._atom("sym", "b#%d" % self._loop_ids, (), pos=False, real=True, integer=True)
+        k = alg.atom_expr(ivar)
+        self.facts.refine(k, {"0", "+"})
+        self.facts.refine((k - rng.count + ONE).expand(), {"-", "0"})
+        e2 = dict(env)
+        e2[s.target.id] = k
+        n_ev = len(self.events)
+        try:
+            for st in cands:
+                e2[st.targets[0].id] = self.eval(st.value, e2)
+            lo, hi = e2[lo_name], e2[hi_name]
+        except AnalysisError:
+            return False
+        if not (isinstance(lo, Expr) and isinstance(hi, Expr)):
+            return False
+        if not self.refold(lo.subs({ivar: k + ONE})).eq(self.refold(hi)):
+            return False
+        for ev in self.events[n_ev:]:
+            if ev[0] == "rounding" and "Div" in repr(ev[2][1]):
+                self.event("fragile-partition", s, "the cut points %s are truncated floating point products: where the exact value is an integer (at the end of the axis) it can be computed as one ulp less, and int() then drops the last entry" % self.fterm_str(ev[2][1]))
+        before = set(env)
+        env[s.target.id] = k
+        ctx = {"lo": lo, "hi": hi, "ivar": ivar, "count": rng.count, "reported": set()}
+        self.__dict__.setdefault("block_ctx", []).append(ctx)
+        try:
+            self.exec_block(s.body, env)
+        finally:
+            self.block_ctx.pop()
+        for nm in assigned | {s.target.id}:
+            if nm in env:
+                if nm in before:
+                    env[nm] = Unknown("%s as the last block left it" % nm)
+                else:
+                    del env[nm]
+        self.event("block-loop", s, (lo, hi, rng.count))
+        return True
+
     def exec_for(self, s, env):
+        if self._block_loop(s, env):
+            return
         al = self._array_loop(s, env)
         if al is not None:
             self.exec_range_loop(s, al[0], env, index_target=al[1], elements=al[2])
@@ -1364,6 +1483,7 @@ class Interp:
             self.store_through_view(target, arr, v, env)
             return
         idx = self.eval_index(target.slice, env)
+        self._check_block_cover(arr, idx, target)
         new = self.np.store(self, arr, idx, v, target, env)
         if new is not None:
             self.refresh_views(env, arr, new)
@@ -1485,6 +1605,14 @@ class Interp:
         return [it]
 
     def eval_index_item(self, e, env):
+        if isinstance(e, ast.Slice) and getattr(self, "block_ctx", None) and e.step is None and e.lower is not None and e.upper is not None:
+            lo, hi = self.eval(e.lower, env), self.eval(e.upper, env)
+            ctx = self.block_ctx[-1]
+            if isinstance(lo, Expr) and isinstance(hi, Expr) and lo.eq(ctx["lo"]) and hi.eq(ctx["hi"]):
+                sl = SliceV(None, None, None)  # this block's share of the axis: all of it, once every block has had its turn
+                sl.block = ctx
+                return sl
+            return SliceV(lo, hi, None)
         if isinstance(e, ast.Slice):
             return SliceV(
                 self.eval(e.lower, env) if e.lower is not None else None,
@@ -1931,6 +2059,7 @@ class Interp:
         if isinstance(base, Arr):
             idx = self.eval_index(node.slice, env)
             self.cur_node = node
+            self._check_block_cover(base, idx, node)
             r = self.np.load(self, base, idx, node, env)
             if isinstance(r, Arr) and not any(isinstance(i, Arr) for i in idx):
                 # basic indexing: numpy hands out a view of the same memory
